@@ -27,9 +27,10 @@ def run():
     ]
     # L1 per policy: barrier / boundary invariants on the design
     for pol in ["none", "size", "immediate"]:
+        # thorough bounds fitted to measured state counts (size policy: 19 M distinct states / 7 min with four size classes)
         cfg = U.write_cfg("Upstream_c20_%s.cfg" % pol, policy=pol, thr=THR, maxw=2 if quick else 3,
-                          sizes=(1, 5) if quick else (0, 1, 4, 5), zero=not quick, dups=0, acks=1, grants=False,
-                          flushers=("F1",), invs=U.INV_C20)
+                          sizes=(1, 5) if quick else ((1, 4, 5) if pol == "size" else (1, 5)), zero=(not quick and pol == "none"), dups=0, acks=1, grants=False,
+                          flushers=("F1",) if (quick or pol != "immediate") else (), invs=U.INV_C20)
         ctx.l1("Upstream", cfg, timeout=1500)
         os.remove(os.path.join(SPEC, cfg))
     scs = []
